@@ -17,7 +17,7 @@ RULE = ('`python -m pyx12.scripts.x12norm` is run as a subprocess (one process p
         'Every sixth step the last 2-3 inputs are also normalised in ONE invocation (separate arguments in place, to stdout, or through a glob pattern in place); each result must equal the single-file run. non-trivial = distinct (document, option set) pairs; for the repair part those with >=1 perturbed counter.')
 ASSUMPTIONS = ['input files are ASCII (the tool opens files as ASCII by design); --output with several input files (each overwrites the last) is not judged',
                'a segment without any element is not generated (format() writes "SE*~" for "SE~")', 'the exit status and log lines on stderr are not judged']
-REQUIRED_COUNTERS = ['inputs:segments-ending-in-blank-only-elements', 'perturbed:hl-numbers-and-parents-shifted-together', 'mode:output:over-existing-file', 'inputs:longer-than-one-read-buffer:inplace', 'inputs:longer-than-one-read-buffer:output', 'inputs:longer-than-one-read-buffer:stdout', 'invocations', 'mode:stdout', 'mode:output', 'mode:inplace', 'opt:eol', 'opt:fixcounting', 'idempotence-checked', 'repairs-checked', 'perturbed-counters', 'inputs:line-break-character-as-terminator', 'inputs:terminator-at-read-boundary', 'inputs:isa-field-ending-in-component-separator', 'inputs:trailer-whose-true-count-is-zero', 'multi-file-invocations', 'multi-file:later-output-shorter', 'multi-file:inplace', 'multi-file:stdout', 'multi-file:inplace-glob']
+REQUIRED_COUNTERS = ['inputs:control-number-used-twice-in-its-scope', 'inputs:segments-ending-in-blank-only-elements', 'perturbed:hl-numbers-and-parents-shifted-together', 'mode:output:over-existing-file', 'inputs:longer-than-one-read-buffer:inplace', 'inputs:longer-than-one-read-buffer:output', 'inputs:longer-than-one-read-buffer:stdout', 'invocations', 'mode:stdout', 'mode:output', 'mode:inplace', 'opt:eol', 'opt:fixcounting', 'idempotence-checked', 'repairs-checked', 'perturbed-counters', 'inputs:line-break-character-as-terminator', 'inputs:terminator-at-read-boundary', 'inputs:isa-field-ending-in-component-separator', 'inputs:trailer-whose-true-count-is-zero', 'multi-file-invocations', 'multi-file:later-output-shorter', 'multi-file:inplace', 'multi-file:stdout', 'multi-file:inplace-glob']
 MIN_CASES = {'quick': 120, 'thorough': 3000}
 WATCHDOG_S = {'quick': 1200, 'thorough': 7200}
 
@@ -166,9 +166,10 @@ def judge(ctx, text, meta, eol, fix, mode, nperturbed, sigs):
         ctx.viol('norm:not-idempotent', 'normalising the output again changes it', case, {'first': got[:400], 'second': (got2 or '')[:400], 'rc': rc2})
         return
     # repair
-    if fix and nperturbed:
+    if fix:
+        # (also when nothing was perturbed: counts that were right must still be right afterwards)
         ctx.count('repairs-checked')
-        ctx.count('perturbed-counters', nperturbed)
+        ctx.count('perturbed-counters', nperturbed or 0)
         rc_out = RE.recount([(sid, [c[0] if len(c) == 1 else sub_t.join(c) for c in els]) for sid, els in n_out])
         left = [m for m in rc_out.must if m[2] in ('4', '5', '021', 'HL1')]
         if left:
@@ -268,6 +269,31 @@ def run(ctx):
                 continue
             if big and len(doc.text()) > 8298:
                 ctx.count('inputs:longer-than-one-read-buffer:' + mode)
+            if k % 4 in (1, 2):
+                # control numbers used twice in their scope (sets of one group, groups of one interchange): a content finding that is none of the
+                # tool's business - what it counts is sets and groups, not distinct numbers
+                doc = faults.clone(doc)
+                last_ = {}
+                dup_ = 0
+                for r_ in doc.recs:
+                    hid_ = {'ST': 1, 'GS': 5}.get(r_.node.id)
+                    if r_.node.id == 'ISA':
+                        last_.pop('GS', None)
+                    if r_.node.id == 'GS':
+                        last_.pop('ST', None)
+                    if hid_ is not None:
+                        if r_.node.id in last_:
+                            old_ = r_.vals[hid_]
+                            r_.vals[hid_] = last_[r_.node.id]
+                            tr_ = {'ST': 'SE', 'GS': 'GE'}[r_.node.id]
+                            for q_ in doc.recs[doc.recs.index(r_) + 1:]:
+                                if q_.node.id == tr_ and q_.vals[1] == old_:
+                                    q_.vals[1] = r_.vals[hid_]
+                                    break
+                            dup_ += 1
+                        last_[r_.node.id] = r_.vals[hid_]
+                if dup_:
+                    ctx.count('inputs:control-number-used-twice-in-its-scope')
             if fix and rng.random() < 0.8:
                 doc, nper = perturb(rng, doc)
                 if doc.meta.get('hl_shifted'):
